@@ -3,7 +3,7 @@ import os
 import ps, oracle, iterlib
 
 LEVEL = "proof"
-THEOREMS = ["C07_nth_prime_correct", "C07_nth_prime_large"]
+THEOREMS = ["C07_nth_prime_correct", "C07_nth_prime_large", "C07_nth_prime_model_kernel"]
 ASSUMPTIONS = [
     "hypotheses of the theorem: countPrimes and the iterator walks meet their specifications (C04, C01, C02)",
     "primePiApprox / nthPrimeApprox are universally quantified (nthPrimeApprox <= 2^64-1); avgPrimeGap only sizes a stop_hint",
